@@ -12,6 +12,7 @@ import (
 )
 
 type vTransport struct {
+	onWrite func([]byte) // optional: called for every frame handed to the transport
 	proto   ProtocolType
 	uni     bool
 	frames  [][]byte
@@ -41,6 +42,9 @@ func (t *vTransport) WriteMany(bs ...[]byte) error {
 			return errVerifWrite
 		}
 		t.frames = append(t.frames, b)
+		if t.onWrite != nil {
+			t.onWrite(b)
+		}
 	}
 	return nil
 }
